@@ -330,6 +330,25 @@ def applyOps (a : XArr) : List Op → Res XArr
     | .error e => .error e
     | .ok a' => applyOps a' ops
 
+/-! ### registration without a CRS coordinate, `assign_crs` -/
+
+/-- `wrap_xr(im, gbox, crs_coord_name=None, …)` / `xr_coords(gbox, None)`: the same axis coordinates but no CRS
+coordinate (so no GeoTransform / GCPs are stored) and no `grid_mapping` encoding. -/
+def wrapNoName (s : Src) (nt nb : Option Nat) (attrs : List String) : Res XArr :=
+  (wrap s nt nb "spatial_ref" attrs).map fun a =>
+    { a with coords := a.coords.filter (fun kc => match kc.2 with | .crs _ => false | _ => true),
+             gridMapping := none }
+
+/-- `assign_crs(xx, crs, crs_coord_name)` (217-248): `assign_coords` of a fresh CRS coordinate (WKT only: no
+GeoTransform, no GCPs) — replacing a coordinate of that name in place, else appended — and
+`encoding["grid_mapping"] = crs_coord_name`. -/
+def assignCrs (a : XArr) (crs : Crs) (cn : String) : XArr :=
+  let cc : Coord := .crs ⟨some crs, none, none⟩
+  { a with coords := (match a.coords.lookup cn with
+                      | some _ => mapCoord cn (fun _ => cc) a.coords
+                      | none => a.coords ++ [(cn, cc)]),
+           gridMapping := some cn }
+
 /-! ### reprojection output assembly: `_xr_reproject_da` (780-805), `_xr_reproject_ds` (676-711) -/
 
 def spatialAttributes : List String := ["crs", "crs_wkt", "grid_mapping", "gcps", "epsg"]
